@@ -51,16 +51,18 @@ pub struct World {
     /// C13: tick-rent units (779520 lamports each) held by each dynamic array / still held by each position (2 when opened)
     pub array_rent: BTreeMap<i32, i64>,
     pub pos_rent: BTreeMap<u32, i64>,
+    /// C12: set when the Anchor and the Pinocchio run of the last modify disagreed
+    pub c12_mismatch: Option<String>,
 }
 
-fn anchor_err_name(e: anchor_lang::error::Error) -> String {
+pub fn anchor_err_name(e: anchor_lang::error::Error) -> String {
     match e {
         anchor_lang::error::Error::AnchorError(a) => a.error_name.clone(),
         anchor_lang::error::Error::ProgramError(p) => format!("ProgramError({:?})", p.program_error),
     }
 }
 
-fn pino_err_name(e: pino::UnifiedError) -> String {
+pub fn pino_err_name(e: pino::UnifiedError) -> String {
     match e {
         pino::UnifiedError::Anchor(a) => anchor_err_name(a),
         pino::UnifiedError::Pinocchio(p) => format!("PinocchioError({:?})", p),
@@ -68,7 +70,7 @@ fn pino_err_name(e: pino::UnifiedError) -> String {
 }
 
 /// (size change in ticks, rent units moved position -> array) of a TickArrayUpdate
-fn tau_code(u: &::whirlpool::manager::tick_array_manager::TickArrayUpdate) -> (i64, i64) {
+pub fn tau_code(u: &::whirlpool::manager::tick_array_manager::TickArrayUpdate) -> (i64, i64) {
     use ::whirlpool::manager::tick_array_manager::{TickArrayRentTransfer as R, TickArraySizeUpdate as S};
     (
         match u.size_update {
@@ -84,7 +86,7 @@ fn tau_code(u: &::whirlpool::manager::tick_array_manager::TickArrayUpdate) -> (i
     )
 }
 
-const DYN_MAX: usize = 8 + 4 + 32 + 16 + 113 * 88;
+pub const DYN_MAX: usize = 8 + 4 + 32 + 16 + 113 * 88;
 
 impl World {
     pub fn wp(&self) -> Whirlpool {
@@ -146,7 +148,7 @@ impl World {
         }
     }
     #[allow(clippy::mut_from_ref)]
-    unsafe fn pino_view(acc: &ArrayAcc) -> &mut dyn pino::whirlpool::TickArray {
+    pub unsafe fn pino_view(acc: &ArrayAcc) -> &mut dyn pino::whirlpool::TickArray {
         let p = acc.data.borrow_mut().as_mut_ptr();
         if acc.dynamic {
             &mut *(p as *mut pino::whirlpool::tick_array::dynamic_tick_array::MemoryMappedDynamicTickArray)
@@ -291,6 +293,7 @@ impl World {
             acct_len: BTreeMap::new(),
             array_rent: BTreeMap::new(),
             pos_rent: BTreeMap::new(),
+            c12_mismatch: None,
         }
     }
 
@@ -303,6 +306,26 @@ impl World {
         let (ls, us) = (self.array_start_for(p.tick_lower_index), self.array_start_for(p.tick_upper_index));
         self.ensure_array(ls);
         self.ensure_array(us);
+        // C12: both implementations on identical copies of the accounts
+        {
+            use crate::fam_pmod::{clone_acc, run_path, used_bytes};
+            let mk = || (self.wp.clone(), self.positions[&id].clone(), clone_acc(&self.arrays[&ls]), if ls == us { None } else { Some(clone_acc(&self.arrays[&us])) });
+            let (mut wa, mut pa, la, ua) = mk();
+            let (mut wq, mut pq, lq, uq) = mk();
+            let ra = run_path(false, &mut wa, &mut pa, &la, &ua, delta, self.now);
+            let rp = run_path(true, &mut wq, &mut pq, &lq, &uq, delta, self.now);
+            if ra != rp {
+                self.c12_mismatch = Some(format!("C12 modify-liquidity on position {}: Anchor gives {:?}, Pinocchio gives {:?}", id, ra, rp));
+            } else if ra.is_ok() && (wa != wq || pa != pq || used_bytes(&la) != used_bytes(&lq) || ua.as_ref().map(used_bytes) != uq.as_ref().map(used_bytes)) {
+                self.c12_mismatch = Some(format!(
+                    "C12 modify-liquidity on position {}: account bytes differ between the Anchor and the Pinocchio run (whirlpool {}, position {}, arrays {})",
+                    id,
+                    wa != wq,
+                    pa != pq,
+                    used_bytes(&la) != used_bytes(&lq) || ua.as_ref().map(used_bytes) != uq.as_ref().map(used_bytes)
+                ));
+            }
+        }
         // work on copies; commit on success (a failed instruction reverts everything)
         let mut wp_bytes = self.wp.clone();
         let mut pos_bytes = self.positions[&id].clone();
